@@ -7,7 +7,7 @@ package main
 // (trans_specs.go): the file, the function, how receiver fields map to GoMini fields, the meaning of named types
 // and constants, and the list of calls the function may make (shims).  Anything else — an unknown statement or
 // expression kind, a call without a shim, a type it cannot determine, shadowed control flow (labels, goto,
-// fallthrough, defer, go, closures), an element assignment, an `append` that is not `x = append(x, …)` — makes
+// fallthrough, go, closures, defer other than a top-level `defer recv.M()` of a recorded intrinsic), an element assignment, an `append` that is not `x = append(x, …)` — makes
 // the whole table FAIL (the table is removed and reported as `gen:Trans<Name> <reason>`); nothing is skipped or
 // approximated.  See docs/TRANSLATOR.md.
 
@@ -16,6 +16,7 @@ import (
 	"go/ast"
 	"go/constant"
 	"go/parser"
+	"go/printer"
 	"go/token"
 	"path/filepath"
 	"sort"
@@ -36,12 +37,17 @@ import (
 //	kind "set":           statement   recv = <zero value / args[0]>  (Reset(), Store(v))
 //	kind "addret":        statement   recv = recv + arg (at width f); lhs = recv          (atomic Add, sequential meaning)
 //	kind "cas":           statement   if recv == old { recv = new; lhs = true } else { lhs = false }   (CompareAndSwap)
+//	kind "fresh":         statement   recv = f()  where recv is the (pointer) receiver variable itself: the receiver now
+//	                                  denotes a FRESH zeroed object — every field listed in flds gets its zero value and
+//	                                  the nil-ness pseudo-field becomes false (getCheckedEntry(): pool Get + reset)
 //	kind "extstmt":       statement   lhs… = f(recv?, args…)      (several results, external intrinsic)
 //	kind "mutext":        statement   recv, lhs… = f(recv, args…) (external intrinsic that also updates its receiver)
 //	kind "funOn":         statement   lhs… = translated function f(args…) called on a HANDLE (a local of a named type):
 //	                                  the whitelist entry declares that the handle designates the object whose fields
 //	                                  are part of this function's field environment
 //	kind "fun":           statement   lhs… = translated function f(args…) on the same receiver
+//	kind "object":        statement   v := f()  at the top level of a plain function: v IS the object of the field environment
+//	kind "mutarg:N":      statement   args[N], lhs… = f(args…)    (external intrinsic writing through its N-th argument)
 type shim struct {
 	kind string
 	f    string   // intrinsic / function name in GoMini
@@ -65,10 +71,23 @@ type transFunc struct {
 	fields  map[string]fieldSpec   // receiver field → GoMini field
 	types   map[string]string      // Go type text → static type (named types of zap and the std lib)
 	consts  map[string]string      // named constants: Go text → integer literal (decimal) or "bool:true"
+	tail    *tailSpec              // the end of the body is NOT translated but replaced by one recorded intrinsic
 	inout   []string               // pointer parameters the function mutates: their final values are returned after the declared results
+	recvNil string                 // pointer receiver that may be nil: GoMini (bool) field holding `recv == nil`
 	recvAs  *fieldSpec             // the receiver VALUE itself (a slice type such as multiWriteSyncer) as a field
 	structs map[string][]fieldSpec // struct types passed by value: static type "struct:<name>" is a list of these fields
 	calls   map[string]shim        // "<static type or package>.<Name>" → meaning
+}
+
+// tailSpec: from the first top-level statement whose source text is `from` on, the body is replaced by
+// `res = f(args…); return res` (or `f(args…); return` when res is empty).  The cut is explicit in the generated
+// file; what follows it is outside the theorem.
+type tailSpec struct {
+	from  string
+	f     string
+	args  []string // locals / parameters handed to the intrinsic
+	res   string
+	trace string
 }
 
 type transSpec struct {
@@ -102,19 +121,24 @@ type tvar struct {
 }
 
 type xl struct {
-	fn      *transFunc
-	fd      *ast.FuncDecl
-	recvVar string
-	scopes  []map[string]tvar
-	consts  map[string]constant.Value // local const declarations
-	nloc    int
-	named   []tvar   // named results (in order)
-	results []string // result types
-	legend  []string
-	loops   []string
-	inouts  []tvar               // in-out parameters, in the order of fn.inout
-	subst   map[*ast.CallExpr]tx // calls hoisted out of an if-condition
-	stmts_  int
+	fn          *transFunc
+	fd          *ast.FuncDecl
+	file        *ast.File // the parsed source file (package-level constants and struct declarations are read from it)
+	recvVar     string
+	scopes      []map[string]tvar
+	consts      map[string]constant.Value // local const declarations
+	nloc        int
+	named       []tvar   // named results (in order)
+	results     []string // result types
+	legend      []string
+	loops       []string
+	inouts      []tvar               // in-out parameters, in the order of fn.inout
+	subst       map[*ast.CallExpr]tx // calls hoisted out of an expression
+	defers      []string             // deferred calls registered so far (top level only), in source order
+	depth       int                  // block nesting: 1 = the function body
+	hoistLeaves int                  // operands seen so far while walking an expression in evaluation order
+	hoistFields int                  // … of which field reads, constants and calls left in place
+	stmts_      int
 }
 
 type xerr struct{ msg string }
@@ -127,8 +151,8 @@ func (x *xl) fail(n ast.Node, format string, a ...any) {
 	panic(xerr{fmt.Sprintf(format, a...) + pos})
 }
 
-func (x *xl) push() { x.scopes = append(x.scopes, map[string]tvar{}) }
-func (x *xl) pop()  { x.scopes = x.scopes[:len(x.scopes)-1] }
+func (x *xl) push() { x.scopes = append(x.scopes, map[string]tvar{}); x.depth = len(x.scopes) - 1 }
+func (x *xl) pop()  { x.scopes = x.scopes[:len(x.scopes)-1]; x.depth = len(x.scopes) - 1 }
 
 func (x *xl) lookup(name string) (tvar, bool) {
 	for i := len(x.scopes) - 1; i >= 0; i-- {
@@ -153,6 +177,9 @@ func (x *xl) declare(n ast.Node, name, typ string) tvar {
 // goType maps a Go type expression to a static type.
 // transTypeText renders a type expression as the key the whitelist entries use (function types included).
 func transTypeText(e ast.Expr) string {
+	if el, ok := e.(*ast.Ellipsis); ok { // variadic parameter ...T: a []T inside the function
+		return "[]" + transTypeText(el.Elt)
+	}
 	ft, ok := e.(*ast.FuncType)
 	if !ok {
 		return exprString(e)
@@ -192,6 +219,13 @@ func (x *xl) goType(e ast.Expr) string {
 	if t, ok := goBasic[txt]; ok {
 		return t
 	}
+	if el, ok := e.(*ast.Ellipsis); ok {
+		elt := x.goType(el.Elt)
+		if elt == "u8" {
+			return "bytes"
+		}
+		return "[]" + elt
+	}
 	if a, ok := e.(*ast.ArrayType); ok && a.Len == nil {
 		el := x.goType(a.Elt)
 		if el == "u8" {
@@ -211,10 +245,16 @@ func zeroOf(t string) (string, bool) {
 		return ".bool false", true
 	case t == "string" || t == "bytes":
 		return ".bytes []", true
-	case t == "error" || strings.HasPrefix(t, "[]"):
+	case t == "error" || strings.HasPrefix(t, "[]") || isNilable(t):
 		return ".list []", true
 	}
 	return "", false
+}
+
+// isNilable: interface / pointer values that may be nil.  "opt:T" is nil = [] or [v]; "ptr:struct:T" is nil = [] or
+// the list of the declared fields of T (at least one field is declared, so the two cannot be confused).
+func isNilable(t string) bool {
+	return strings.HasPrefix(t, "opt:") || strings.HasPrefix(t, "ptr:struct:")
 }
 
 // ---------------------------------------------------------------- expressions
@@ -264,6 +304,9 @@ func (x *xl) constTo(n ast.Node, e tx, t string) tx {
 
 // defaultType: an untyped constant on its own is an int (rune constants too: they are integers here).
 func (x *xl) defaulted(n ast.Node, e tx) tx {
+	if e.typ == "nil" { // a bare nil (argument position): every nil-able representation is the empty list
+		return tx{lean: "(.lit (.list []))", typ: "nil"}
+	}
 	if e.typ != "untyped" {
 		return e
 	}
@@ -281,11 +324,23 @@ func (x *xl) namedConst(n ast.Node, txt string) (tx, bool) {
 		return tx{typ: "untyped", val: v}, true
 	}
 	if s, ok := x.fn.consts[txt]; ok {
+		if s == "src" { // a package-level constant of the same file with a literal value: READ from the source
+			if v, ok := x.srcConst(txt); ok {
+				return tx{typ: "untyped", val: v}, true
+			}
+			x.fail(n, "constant %s: no package-level declaration with a literal value in %s", txt, x.fn.file)
+		}
 		if strings.HasPrefix(s, "bool:") {
 			return tx{typ: "untyped", val: constant.MakeBool(s == "bool:true")}, true
 		}
 		if strings.HasPrefix(s, "str:") {
 			return tx{typ: "untyped", val: constant.MakeString(s[4:])}, true
+		}
+		if strings.HasPrefix(s, "val:") { // a constant of a declared (nil-able) type: "val:<type>|<GoMini literal>"
+			if i := strings.Index(s, "|"); i > 0 {
+				return tx{lean: "(.lit (" + s[i+1:] + "))", typ: s[4:i]}, true
+			}
+			x.fail(n, "bad constant %q in whitelist entry", s)
 		}
 		if i := strings.Index(s, ":"); i > 0 { // typed constant "u8:128"
 			v := intConst(s[i+1:])
@@ -301,6 +356,84 @@ func (x *xl) namedConst(n ast.Node, txt string) (tx, bool) {
 		return tx{typ: "untyped", val: v}, true
 	}
 	return tx{}, false
+}
+
+// srcConst finds `const name = <literal>` at package level of the translated file; in a block whose first spec is
+// `= iota` (plain, optionally typed) and whose other specs repeat it implicitly, the value is the spec's position.
+func (x *xl) srcConst(name string) (constant.Value, bool) {
+	if x.file == nil {
+		return nil, false
+	}
+	for _, d := range x.file.Decls {
+		gd, ok := d.(*ast.GenDecl)
+		if !ok || gd.Tok != token.CONST {
+			continue
+		}
+		plainIota := false
+		for si, sp := range gd.Specs {
+			vs := sp.(*ast.ValueSpec)
+			if si == 0 {
+				if len(vs.Names) == 1 && len(vs.Values) == 1 {
+					if id, ok := vs.Values[0].(*ast.Ident); ok && id.Name == "iota" {
+						plainIota = true
+					}
+				}
+			} else if len(vs.Values) != 0 || len(vs.Names) != 1 {
+				plainIota = false
+			}
+			for i, id := range vs.Names {
+				if id.Name != name {
+					continue
+				}
+				if plainIota {
+					return constant.MakeInt64(int64(si)), true
+				}
+				if i >= len(vs.Values) {
+					return nil, false
+				}
+				if lit, ok := vs.Values[i].(*ast.BasicLit); ok && (lit.Kind == token.STRING || lit.Kind == token.INT || lit.Kind == token.CHAR) {
+					v := constant.MakeFromLiteral(lit.Value, lit.Kind, 0)
+					if lit.Kind != token.STRING {
+						v = constant.ToInt(v)
+					}
+					return v, true
+				}
+				return nil, false
+			}
+		}
+	}
+	return nil, false
+}
+
+// srcStructFields: the field names of `type name struct {…}` declared in the translated file, in order.
+func (x *xl) srcStructFields(name string) ([]string, bool) {
+	if x.file == nil {
+		return nil, false
+	}
+	for _, d := range x.file.Decls {
+		gd, ok := d.(*ast.GenDecl)
+		if !ok || gd.Tok != token.TYPE {
+			continue
+		}
+		for _, sp := range gd.Specs {
+			ts := sp.(*ast.TypeSpec)
+			st, ok := ts.Type.(*ast.StructType)
+			if ts.Name.Name != name || !ok {
+				continue
+			}
+			var out []string
+			for _, f := range st.Fields.List {
+				if len(f.Names) == 0 {
+					return nil, false // embedded field
+				}
+				for _, n := range f.Names {
+					out = append(out, n.Name)
+				}
+			}
+			return out, true
+		}
+	}
+	return nil, false
 }
 
 func intConst(s string) constant.Value {
@@ -374,8 +507,8 @@ func (x *xl) expr(e ast.Expr) tx {
 			return c
 		}
 		if id, ok := t.X.(*ast.Ident); ok {
-			if v, ok := x.lookup(id.Name); ok && strings.HasPrefix(v.typ, "struct:") {
-				for i, f := range x.fn.structs[v.typ[7:]] {
+			if v, ok := x.lookup(id.Name); ok && (strings.HasPrefix(v.typ, "struct:") || strings.HasPrefix(v.typ, "ptr:struct:")) {
+				for i, f := range x.fn.structs[v.typ[strings.Index(v.typ, "struct:")+7:]] {
 					if f.lean == t.Sel.Name {
 						return tx{lean: fmt.Sprintf("(.index (.loc %s) (.lit (.int %d)))", leanStr(v.lean), i), typ: f.typ}
 					}
@@ -433,6 +566,66 @@ func (x *xl) expr(e ast.Expr) tx {
 			return tx{lean: "(.index " + a.lean + " " + i.lean + ")", typ: a.typ[2:]}
 		}
 		x.fail(e, "indexing a value of type %s", a.typ)
+	case *ast.CompositeLit:
+		// T{Field: v, …} for a struct type the entry declares: the list of the DECLARED fields in declared order; a
+		// key the entry does not declare is refused, a declared field that is not given takes its zero value
+		typ, ok := x.tryType(t.Type)
+		if !ok || !strings.HasPrefix(typ, "struct:") {
+			x.fail(e, "composite literal of %s is outside the subset", exprString(t.Type))
+		}
+		decl := x.fn.structs[typ[7:]]
+		given := map[string]string{}
+		if len(t.Elts) > 0 {
+			if _, keyed := t.Elts[0].(*ast.KeyValueExpr); !keyed {
+				// positional literal T{a, b, c}: only for a struct declared IN THE TRANSLATED FILE whose field list is
+				// exactly the list the whitelist entry declares (so that positions mean the declared fields)
+				src, ok := x.srcStructFields(exprString(t.Type))
+				if !ok || len(src) != len(decl) || len(t.Elts) != len(decl) {
+					x.fail(e, "positional composite literal of %s: the struct is not declared in this file with the %d fields of the whitelist entry", exprString(t.Type), len(decl))
+				}
+				var parts []string
+				for i, f := range decl {
+					if src[i] != f.lean {
+						x.fail(e, "positional composite literal of %s: field %d is %s in the source, %s in the whitelist entry", exprString(t.Type), i, src[i], f.lean)
+					}
+					if _, keyed := t.Elts[i].(*ast.KeyValueExpr); keyed {
+						x.fail(e, "mixed composite literal")
+					}
+					parts = append(parts, x.coerce(t.Elts[i], x.expr(t.Elts[i]), f.typ).lean)
+				}
+				return tx{lean: "(.call \"tuple\" [" + strings.Join(parts, ", ") + "])", typ: typ}
+			}
+		}
+		for _, el := range t.Elts {
+			kv, ok := el.(*ast.KeyValueExpr)
+			if !ok {
+				x.fail(e, "mixed composite literal")
+			}
+			k := exprString(kv.Key)
+			var ft string
+			for _, f := range decl {
+				if f.lean == k {
+					ft = f.typ
+				}
+			}
+			if ft == "" {
+				x.fail(e, "field %s of %s is not declared in the whitelist entry", k, typ)
+			}
+			given[k] = x.coerce(kv.Value, x.expr(kv.Value), ft).lean
+		}
+		var parts []string
+		for _, f := range decl {
+			if v, ok := given[f.lean]; ok {
+				parts = append(parts, v)
+				continue
+			}
+			z, ok := zeroOf(f.typ)
+			if !ok {
+				x.fail(e, "no zero value for field %s of %s", f.lean, typ)
+			}
+			parts = append(parts, "(.lit ("+z+"))")
+		}
+		return tx{lean: "(.call \"tuple\" [" + strings.Join(parts, ", ") + "])", typ: typ}
 	case *ast.SliceExpr:
 		if t.Slice3 {
 			x.fail(e, "3-index slice is outside the subset")
@@ -484,14 +677,33 @@ func (x *xl) binary(t *ast.BinaryExpr) tx {
 		}
 		return tx{lean: "(" + op + " " + a.lean + " " + b.lean + ")", typ: "bool"}
 	}
+	// `recv == nil` for a pointer receiver: its nil-ness is a boolean pseudo-field the whitelist entry names
+	if x.fn.recvNil != "" && (t.Op == token.EQL || t.Op == token.NEQ) {
+		isRecv := func(e ast.Expr) bool {
+			id, ok := e.(*ast.Ident)
+			if !ok || id.Name != x.recvVar || x.recvVar == "" {
+				return false
+			}
+			_, shadow := x.lookup(id.Name)
+			return !shadow
+		}
+		isNil := func(e ast.Expr) bool { id, ok := e.(*ast.Ident); return ok && id.Name == "nil" }
+		if (isRecv(t.X) && isNil(t.Y)) || (isNil(t.X) && isRecv(t.Y)) {
+			f := "(.fld " + leanStr(x.fn.recvNil) + ")"
+			if t.Op == token.NEQ {
+				f = "(.un .not " + f + ")"
+			}
+			return tx{lean: f, typ: "bool"}
+		}
+	}
 	a, b := x.expr(t.X), x.expr(t.Y)
-	// nil comparisons: only for error / non-byte slices, where nil is the empty list
+	// nil comparisons: only for error / non-byte slices / nilable named values, where nil is the empty list
 	if a.typ == "nil" || b.typ == "nil" {
 		o := a
 		if a.typ == "nil" {
 			o = b
 		}
-		if (t.Op == token.EQL || t.Op == token.NEQ) && (o.typ == "error" || (strings.HasPrefix(o.typ, "[]"))) {
+		if (t.Op == token.EQL || t.Op == token.NEQ) && (o.typ == "error" || strings.HasPrefix(o.typ, "[]") || isNilable(o.typ)) {
 			return tx{lean: "(.bin ." + cmpOps[t.Op] + " (.len " + o.lean + ") (.lit (.int 0)))", typ: "bool"}
 		}
 		x.fail(t, "comparison of %s with nil is outside the subset", o.typ)
@@ -560,7 +772,7 @@ func (x *xl) binary(t *ast.BinaryExpr) tx {
 	if op, ok := cmpOps[t.Op]; ok {
 		okT := isInt(a.typ)
 		if t.Op == token.EQL || t.Op == token.NEQ {
-			okT = okT || a.typ == "bool" || a.typ == "string"
+			okT = okT || a.typ == "bool" || a.typ == "string" || strings.HasPrefix(a.typ, "opt:")
 		}
 		if !okT {
 			x.fail(t, "%s applied to %s", t.Op, a.typ)
@@ -584,6 +796,7 @@ type tcall struct {
 	value     string
 	pre       []string // extfld: places assigned before the declared results
 	traceStmt string   // extstmt with a trace: executed before the call
+	pureTrace bool     // the call touches nothing Go code can read (only the trace and its own results)
 	recvRd    string   // addret / cas: the receiver as an expression
 	old, new  string   // cas
 }
@@ -637,6 +850,38 @@ func (x *xl) callExpr(c *ast.CallExpr) (tx, bool) {
 				return tx{lean: "(.call " + leanStr(id.Name) + " [" + a.lean + ", " + b.lean + "])", typ: a.typ}, false
 			case "append":
 				return x.appendCall(c), false
+			case "make":
+				// make([]T, 0, n): the empty slice (slices are values; capacity has no meaning — see `cap` in the docs)
+				if len(c.Args) == 2 {
+					// make([]T, n): what a fresh slice of n elements is, is the entry's shim "make" (an intrinsic)
+					t, ok := x.tryType(c.Args[0])
+					sh, has := x.fn.calls["make"]
+					if !ok || !strings.HasPrefix(t, "[]") || !has || sh.kind != "ext" || len(sh.res) != 1 || sh.res[0] != t {
+						x.fail(c, "make(%s, n) needs a shim \"make\" of kind ext with this result type", exprString(c.Args[0]))
+					}
+					n := x.expr(c.Args[1])
+					if n.typ == "untyped" {
+						n = x.constTo(c, n, "int")
+					}
+					if !isInt(n.typ) {
+						x.fail(c, "make length of type %s", n.typ)
+					}
+					return tx{lean: "(.call " + leanStr(sh.f) + " [" + n.lean + "])", typ: t}, false
+				}
+				if len(c.Args) != 3 {
+					x.fail(c, "make is in the subset only as make([]T, 0, n) and make([]T, n)")
+				}
+				t, ok := x.tryType(c.Args[0])
+				if !ok || !strings.HasPrefix(t, "[]") {
+					x.fail(c, "make of %s", exprString(c.Args[0]))
+				}
+				if l := x.expr(c.Args[1]); l.typ != "untyped" || l.val.Kind() != constant.Int || constant.Sign(l.val) != 0 {
+					x.fail(c, "make with a length other than the constant 0")
+				}
+				if n := x.expr(c.Args[2]); n.typ != "untyped" && !isInt(n.typ) {
+					x.fail(c, "make capacity of type %s", n.typ)
+				}
+				return tx{lean: "(.lit (.list []))", typ: t}, false
 			}
 			if _, isConst := x.namedConst(c, id.Name); !isConst {
 				if t, ok := x.tryType(c.Fun); ok {
@@ -684,16 +929,50 @@ func (x *xl) callExpr(c *ast.CallExpr) (tx, bool) {
 			x.fail(c, "shim kind %q is not applicable to a function value", sh.kind)
 		}
 	}
-	// method or package call
-	sel, ok := c.Fun.(*ast.SelectorExpr)
-	if !ok {
-		x.fail(c, "call of %s is outside the subset", exprString(c.Fun))
+	// a computed function value, e.g. h.funcs[i](ent): the static type of the callee names the shim; the function
+	// VALUE is passed first (it scripts its own outcome)
+	if _, isId := c.Fun.(*ast.Ident); !isId {
+		if _, isSel := c.Fun.(*ast.SelectorExpr); !isSel {
+			fv, ok := x.tryExpr(c.Fun)
+			if !ok {
+				x.fail(c, "call of %s is outside the subset", exprString(c.Fun))
+			}
+			sh, ok := x.fn.calls[fv.typ+"()"]
+			if !ok {
+				x.fail(c, "call of a function value of type %s (key %q) is not in the whitelist entry of %s", fv.typ, fv.typ+"()", x.fn.name)
+			}
+			args := []string{fv.lean}
+			for _, a := range c.Args {
+				args = append(args, x.defaulted(a, x.expr(a)).lean)
+			}
+			switch sh.kind {
+			case "extstmt":
+				pendingCall = &tcall{ctor: "callX", f: sh.f, args: args, res: sh.res}
+				x.addTrace(c, sh, fv.typ+"()", args)
+				return tx{}, true
+			case "ext":
+				if len(sh.res) != 1 {
+					x.fail(c, "shim %s needs one result type", fv.typ+"()")
+				}
+				return tx{lean: "(.call " + leanStr(sh.f) + " [" + strings.Join(args, ", ") + "])", typ: sh.res[0]}, false
+			}
+			x.fail(c, "shim kind %q is not applicable to a function value", sh.kind)
+		}
 	}
+	// method or package call
 	var key string
 	var recvLean, recvLV string
 	hasRecv := false
 	isSelf := false
-	if id, ok := sel.X.(*ast.Ident); ok && id.Name == x.recvVar && x.recvVar != "" {
+	var sel *ast.SelectorExpr
+	isPkgFn := false
+	if id, ok := c.Fun.(*ast.Ident); ok {
+		key, isPkgFn = id.Name, true // a package-level function of the same package, called by name
+		sel = &ast.SelectorExpr{X: id, Sel: id}
+	} else {
+		sel = c.Fun.(*ast.SelectorExpr)
+	}
+	if id, ok := sel.X.(*ast.Ident); key == "" && ok && id.Name == x.recvVar && x.recvVar != "" {
 		if _, shadow := x.lookup(id.Name); !shadow {
 			key, isSelf = "recv."+sel.Sel.Name, true
 		}
@@ -703,8 +982,12 @@ func (x *xl) callExpr(c *ast.CallExpr) (tx, bool) {
 			key, recvLean, recvLV, hasRecv = typ+"."+sel.Sel.Name, rd, lv, true
 		} else if id, ok := sel.X.(*ast.Ident); ok {
 			key = id.Name + "." + sel.Sel.Name // package function
+		} else if rv, ok := x.tryExpr(sel.X); ok && rv.typ != "untyped" && rv.typ != "nil" {
+			// method on a computed value that is itself inside the subset, e.g. ce.cores[i].Write(…): its static type
+			// names the shim; the value is the (non-assignable) receiver
+			key, recvLean, hasRecv = rv.typ+"."+sel.Sel.Name, rv.lean, true
 		} else {
-			// method on a computed value, e.g. w.Log.Core().Enabled(…): key on the source text of the receiver
+			// method on any other computed value, e.g. w.Log.Core().Enabled(…): key on the source text of the receiver
 			key = exprString(sel.X) + "." + sel.Sel.Name
 			if id0 := rootIdent(sel.X); id0 == x.recvVar && x.recvVar != "" {
 				key = "recv" + strings.TrimPrefix(key, x.recvVar)
@@ -720,6 +1003,20 @@ func (x *xl) callExpr(c *ast.CallExpr) (tx, bool) {
 		for _, a := range c.Args {
 			args = append(args, x.defaulted(a, x.expr(a)).lean)
 		}
+	}
+	if strings.HasPrefix(sh.kind, "mutarg:") {
+		// statement  args[N], lhs… = f(args…): an external intrinsic that writes through its N-th argument (a slice the
+		// callee fills, e.g. runtime.Callers(skip, pcs)); the argument must be assignable
+		idx, err := strconv.Atoi(sh.kind[7:])
+		if err != nil || idx < 0 || idx >= len(c.Args) || hasRecv {
+			x.fail(c, "shim %s on %s", sh.kind, key)
+		}
+		addArgs()
+		lv, _ := x.lvalue(c.Args[idx])
+		pendingCall = &tcall{ctor: "callX", f: sh.f, args: args, res: sh.res, pre: []string{lv}}
+		x.addTrace(c, sh, key, args)
+		pendingCall.pureTrace = false
+		return tx{}, true
 	}
 	switch sh.kind {
 	case "len":
@@ -753,7 +1050,7 @@ func (x *xl) callExpr(c *ast.CallExpr) (tx, bool) {
 		addArgs()
 		return tx{lean: "(.call " + leanStr(sh.f) + " [" + strings.Join(args, ", ") + "])", typ: sh.res[0]}, false
 	case "mut":
-		if !hasRecv {
+		if !hasRecv || recvLV == "" {
 			x.fail(c, "shim mut on %s needs an assignable receiver", key)
 		}
 		args = append(args, recvLean)
@@ -761,7 +1058,7 @@ func (x *xl) callExpr(c *ast.CallExpr) (tx, bool) {
 		pendingCall = &tcall{ctor: "mut", targetLV: recvLV, value: "(.call " + leanStr(sh.f) + " [" + strings.Join(args, ", ") + "])"}
 		return tx{}, true
 	case "set":
-		if !hasRecv {
+		if !hasRecv || recvLV == "" {
 			x.fail(c, "shim set on %s needs an assignable receiver", key)
 		}
 		var v string
@@ -776,7 +1073,7 @@ func (x *xl) callExpr(c *ast.CallExpr) (tx, bool) {
 		pendingCall = &tcall{ctor: "mut", targetLV: recvLV, value: v}
 		return tx{}, true
 	case "addret":
-		if !hasRecv || len(c.Args) != 1 || !isInt(sh.f) {
+		if !hasRecv || recvLV == "" || len(c.Args) != 1 || !isInt(sh.f) {
 			x.fail(c, "shim addret on %s", key)
 		}
 		d := x.constTo(c.Args[0], x.expr(c.Args[0]), sh.f)
@@ -787,7 +1084,7 @@ func (x *xl) callExpr(c *ast.CallExpr) (tx, bool) {
 			value: "(.bin (.add " + intTypes[sh.f] + ") " + recvLean + " " + d.lean + ")"}
 		return tx{}, true
 	case "cas":
-		if !hasRecv || len(c.Args) != 2 || !isInt(sh.f) {
+		if !hasRecv || recvLV == "" || len(c.Args) != 2 || !isInt(sh.f) {
 			x.fail(c, "shim cas on %s", key)
 		}
 		o := x.constTo(c.Args[0], x.expr(c.Args[0]), sh.f)
@@ -803,14 +1100,7 @@ func (x *xl) callExpr(c *ast.CallExpr) (tx, bool) {
 		}
 		addArgs()
 		pendingCall = &tcall{ctor: "callX", f: sh.f, args: args, res: sh.res}
-		if sh.trace != "" {
-			fs, ok := x.fn.fields[sh.trace]
-			if !ok {
-				x.fail(c, "shim %s names the unmapped trace field %s", key, sh.trace)
-			}
-			pendingCall.traceStmt = "(.assign [(.fld " + leanStr(fs.lean) + ")] [(.call \"append\" [(.fld " + leanStr(fs.lean) +
-				"), (.call \"tuple\" [" + strings.Join(args, ", ") + "])])])"
-		}
+		x.addTrace(c, sh, key, args)
 		return tx{}, true
 	case "extfld":
 		// statement  flds…, lhs… = f(flds…, args…): an untranslated method of the receiver that reads and writes the listed fields
@@ -830,12 +1120,14 @@ func (x *xl) callExpr(c *ast.CallExpr) (tx, bool) {
 		pendingCall = &tcall{ctor: "callX", f: sh.f, args: args, res: sh.res, pre: lvs}
 		return tx{}, true
 	case "mutext":
-		if !hasRecv {
+		if !hasRecv || recvLV == "" {
 			x.fail(c, "shim mutext on %s needs an assignable receiver", key)
 		}
 		args = append(args, recvLean)
 		addArgs()
 		pendingCall = &tcall{ctor: "callX", f: sh.f, args: args, res: sh.res, pre: []string{recvLV}}
+		x.addTrace(c, sh, key, args)
+		pendingCall.pureTrace = false
 		return tx{}, true
 	case "funOn":
 		if !hasRecv {
@@ -845,7 +1137,7 @@ func (x *xl) callExpr(c *ast.CallExpr) (tx, bool) {
 		pendingCall = &tcall{ctor: "call", f: sh.f, args: args, res: sh.res}
 		return tx{}, true
 	case "fun":
-		if !isSelf {
+		if !isSelf && !isPkgFn {
 			x.fail(c, "translated function %s must be called on the receiver itself", key)
 		}
 		addArgs()
@@ -854,6 +1146,35 @@ func (x *xl) callExpr(c *ast.CallExpr) (tx, bool) {
 	}
 	x.fail(c, "unknown shim kind %q for %s", sh.kind, key)
 	return tx{}, false
+}
+
+// addTrace: a traced intrinsic records (name, arguments…) in the trace pseudo-field before it is called
+func (x *xl) addTrace(c *ast.CallExpr, sh shim, key string, args []string) {
+	if sh.trace == "" {
+		return
+	}
+	fs, ok := x.fn.fields[sh.trace]
+	if !ok {
+		x.fail(c, "shim %s names the unmapped trace field %s", key, sh.trace)
+	}
+	rec := append([]string{"(.lit (.bytes " + leanBytes([]byte(sh.f)) + ") /- " + strings.NewReplacer("-/", "- /", "/-", "/ -").Replace(sh.f) + " -/)"}, args...)
+	pendingCall.traceStmt = "(.assign [(.fld " + leanStr(fs.lean) + ")] [(.call \"append\" [(.fld " + leanStr(fs.lean) +
+		"), (.call \"tuple\" [" + strings.Join(rec, ", ") + "])])])"
+	pendingCall.pureTrace = true
+}
+
+// tryExpr translates an expression, reporting failure instead of aborting the table
+func (x *xl) tryExpr(e ast.Expr) (t tx, ok bool) {
+	defer func() {
+		if r := recover(); r != nil {
+			if _, is := r.(xerr); is {
+				t, ok = tx{}, false
+				return
+			}
+			panic(r)
+		}
+	}()
+	return x.expr(e), true
 }
 
 func rootIdent(e ast.Expr) string {
@@ -950,51 +1271,144 @@ func (x *xl) appendCall(c *ast.CallExpr) tx {
 	return tx{lean: "(.call \"append\" [" + s.lean + ", " + v.lean + "])", typ: s.typ}
 }
 
-// hoist: a call with a statement-level meaning (mutation, several results, translated function) may appear inside the
-// condition of an `if` when it is the FIRST thing the condition evaluates and is evaluated unconditionally — i.e. it
-// is reached from the root through parentheses, unary operators and LEFT operands only.  It is then executed before
-// the `if` into a fresh local, which replaces it in the condition.  Any other placement is outside the subset.
-func (x *xl) hoist(e ast.Expr) []string {
-	cur := e
-	for {
-		switch t := cur.(type) {
-		case *ast.ParenExpr:
-			cur = t.X
-			continue
-		case *ast.UnaryExpr:
-			cur = t.X
-			continue
-		case *ast.BinaryExpr:
-			cur = t.X
-			continue
-		case *ast.CallExpr:
-			if _, done := x.subst[t]; done {
-				return nil
+// Hoisting.  A call with a statement-level meaning (several results, a translated function, a traced intrinsic) may
+// stand INSIDE an expression of an `if` condition, an assignment, a `return` or a call statement.  It is executed
+// before the statement into a fresh local, which replaces it in the expression, when that preserves Go's meaning:
+//
+//   - an external intrinsic (`extstmt`) reads and writes nothing the Go code can see (its trace pseudo-field apart), so
+//     it may move in front of every PURE evaluation that precedes it; it is hoisted from any position that is
+//     evaluated unconditionally, i.e. not from the right operand of && / || (several such calls keep their order);
+//   - any other statement-level call (mutation, compare-and-swap, translated function) is hoisted only when everything
+//     the expression evaluates before it is a local variable or a literal (a callee cannot change the caller's locals).
+//
+// Loop conditions are never hoisted from (they are re-evaluated).  Anything else is outside the subset.
+func (x *xl) hoistWalk(e ast.Expr, conditional bool, out *[]string) {
+	switch t := e.(type) {
+	case *ast.ParenExpr:
+		x.hoistWalk(t.X, conditional, out)
+	case *ast.UnaryExpr:
+		x.hoistWalk(t.X, conditional, out)
+	case *ast.BinaryExpr:
+		x.hoistWalk(t.X, conditional, out)
+		x.hoistWalk(t.Y, conditional || t.Op == token.LAND || t.Op == token.LOR, out)
+	case *ast.IndexExpr:
+		x.hoistWalk(t.X, conditional, out)
+		x.hoistWalk(t.Index, conditional, out)
+	case *ast.SliceExpr:
+		x.hoistWalk(t.X, conditional, out)
+		for _, b := range []ast.Expr{t.Low, t.High} {
+			if b != nil {
+				x.hoistWalk(b, conditional, out)
 			}
-			if _, isStmt := x.tryCall(t); !isStmt {
-				return nil
-			}
-			pc := pendingCall
-			pendingCall = nil
-			if pc.ctor == "mut" || len(pc.res) != 1 {
-				x.fail(t, "call %s has no single value here", exprString(t.Fun))
-			}
-			tmp := tvar{fmt.Sprintf("l%d", x.nloc), pc.res[0]}
-			x.nloc++
-			x.legend = append(x.legend, tmp.lean+" = (value of "+exprString(t.Fun)+"(…) in the condition) "+tmp.typ)
-			if x.subst == nil {
-				x.subst = map[*ast.CallExpr]tx{}
-			}
-			x.subst[t] = tx{lean: "(.loc " + leanStr(tmp.lean) + ")", typ: tmp.typ}
-			return []string{x.emitCall(t, pc, []string{"(.loc " + leanStr(tmp.lean) + ")"}, []string{tmp.typ})}
 		}
-		return nil
+	case *ast.CompositeLit:
+		for _, el := range t.Elts {
+			if kv, ok := el.(*ast.KeyValueExpr); ok {
+				x.hoistWalk(kv.Value, conditional, out)
+			}
+		}
+	case *ast.SelectorExpr:
+		x.hoistWalk(t.X, conditional, out)
+		x.hoistLeaves++
+		x.hoistFields++
+	case *ast.Ident, *ast.BasicLit:
+		x.hoistLeaves++
+	case *ast.CallExpr:
+		before := x.hoistFields
+		x.hoistArgs(t, conditional, out)
+		x.hoistCall(t, conditional, before == 0, out)
+		x.hoistLeaves++
+		if _, hoisted := x.subst[t]; !hoisted {
+			x.hoistFields++ // a call left in place may read anything
+		}
 	}
 }
 
-// tryCall is callExpr that reports "not a statement call" instead of failing on a call that is an ordinary expression.
-func (x *xl) tryCall(c *ast.CallExpr) (tx, bool) {
-	return x.callExpr(c)
+func (x *xl) hoistArgs(c *ast.CallExpr, conditional bool, out *[]string) {
+	if sel, ok := c.Fun.(*ast.SelectorExpr); ok {
+		x.hoistWalk(sel.X, conditional, out)
+	} else if _, ok := c.Fun.(*ast.Ident); !ok {
+		x.hoistWalk(c.Fun, conditional, out)
+	}
+	for _, a := range c.Args {
+		x.hoistWalk(a, conditional, out)
+	}
+}
+
+func (x *xl) hoistCall(t *ast.CallExpr, conditional, first bool, out *[]string) {
+	if _, done := x.subst[t]; done {
+		return
+	}
+	// a call that cannot be translated on its own (e.g. the receiver part of a text-keyed shim such as
+	// w.Log.Core().Enabled) is left to the statement translator, which accepts or rejects the whole expression
+	isStmt, ok := func() (st bool, ok bool) {
+		defer func() {
+			if r := recover(); r != nil {
+				if _, is := r.(xerr); is {
+					st, ok = false, false
+					return
+				}
+				panic(r)
+			}
+		}()
+		_, st = x.callExpr(t)
+		return st, true
+	}()
+	if !ok || !isStmt {
+		pendingCall = nil
+		return
+	}
+	pc := pendingCall
+	pendingCall = nil
+	if pc.ctor == "mut" || pc.ctor == "nop" || len(pc.res) != 1 {
+		x.fail(t, "call %s has no single value here", exprString(t.Fun))
+	}
+	if conditional {
+		x.fail(t, "call %s is evaluated conditionally (right operand of && or ||): it cannot be executed before the statement", exprString(t.Fun))
+	}
+	pure := pc.ctor == "callX" && len(pc.pre) == 0
+	if !pure && !first {
+		x.fail(t, "call %s changes state and is evaluated after a field read or another call", exprString(t.Fun))
+	}
+	tmp := tvar{fmt.Sprintf("l%d", x.nloc), pc.res[0]}
+	x.nloc++
+	x.legend = append(x.legend, tmp.lean+" = (value of "+exprString(t.Fun)+"(…) inside an expression) "+tmp.typ)
+	if x.subst == nil {
+		x.subst = map[*ast.CallExpr]tx{}
+	}
+	x.subst[t] = tx{lean: "(.loc " + leanStr(tmp.lean) + ")", typ: tmp.typ}
+	*out = append(*out, x.emitCall(t, pc, []string{"(.loc " + leanStr(tmp.lean) + ")"}, []string{tmp.typ}))
+}
+
+// hoist prepares expression e; when root is true and e is itself a call, only its arguments are prepared (the
+// statement translator deals with the call itself).
+func (x *xl) hoist(e ast.Expr, root bool) []string {
+	var out []string
+	x.hoistLeaves, x.hoistFields = 0, 0
+	if c, ok := e.(*ast.CallExpr); ok && root {
+		x.hoistArgs(c, false, &out)
+		return out
+	}
+	x.hoistWalk(e, false, &out)
+	return out
+}
+
+// hoistStmt prepares the expressions a simple statement evaluates.
+func (x *xl) hoistStmt(s ast.Stmt) []string {
+	var out []string
+	switch t := s.(type) {
+	case *ast.ExprStmt:
+		out = append(out, x.hoist(t.X, true)...)
+	case *ast.AssignStmt:
+		for _, r := range t.Rhs {
+			out = append(out, x.hoist(r, len(t.Rhs) == 1)...)
+		}
+	case *ast.ReturnStmt:
+		for _, r := range t.Results {
+			out = append(out, x.hoist(r, len(t.Results) == 1)...)
+		}
+	}
+	return out
 }
 
 // ---------------------------------------------------------------- statements
@@ -1059,6 +1473,11 @@ func (x *xl) coerce(n ast.Node, v tx, typ string) tx {
 }
 
 func (x *xl) stmt(s ast.Stmt) string {
+	pre := x.hoistStmt(s)
+	return block(append(pre, x.stmt1(s)))
+}
+
+func (x *xl) stmt1(s ast.Stmt) string {
 	x.stmts_++
 	switch t := s.(type) {
 	case *ast.EmptyStmt:
@@ -1095,6 +1514,8 @@ func (x *xl) stmt(s ast.Stmt) string {
 		return x.decl(t)
 	case *ast.ReturnStmt:
 		return x.ret(t)
+	case *ast.DeferStmt:
+		return x.deferStmt(t)
 	case *ast.BranchStmt:
 		if t.Label != nil {
 			x.fail(s, "labelled %s is outside the subset", t.Tok)
@@ -1113,7 +1534,7 @@ func (x *xl) stmt(s ast.Stmt) string {
 		if t.Init != nil {
 			pre = append(pre, x.stmt(t.Init))
 		}
-		pre = append(pre, x.hoist(t.Cond)...)
+		pre = append(pre, x.hoist(t.Cond, false)...)
 		c := x.defaulted(t.Cond, x.expr(t.Cond))
 		if c.typ != "bool" {
 			x.fail(t.Cond, "if condition of type %s", c.typ)
@@ -1249,6 +1670,54 @@ func (x *xl) assign(t *ast.AssignStmt) string {
 			x.fail(t, "op-assignment changes the type %s to %s", typ, v.typ)
 		}
 		return "(.assign [" + lv + "] [" + v.lean + "])"
+	}
+	// `v := pool.Get()` with a shim of kind "object" in a plain function: from here on v IS the object whose fields the
+	// entry maps (the field environment at entry describes what Get returns); v.f reads / writes those fields
+	if len(t.Lhs) == 1 && len(t.Rhs) == 1 && t.Tok == token.DEFINE {
+		if c, isCall := t.Rhs[0].(*ast.CallExpr); isCall && len(c.Args) == 0 {
+			if sh, ok := x.fn.calls[exprString(c.Fun)]; ok && sh.kind == "object" {
+				id, isId := t.Lhs[0].(*ast.Ident)
+				if !isId || x.recvVar != "" || x.fd.Recv != nil || x.depth != 1 {
+					x.fail(t, "shim object: only `v := f()` at the top level of a plain function")
+				}
+				x.recvVar = id.Name
+				x.legend = append(x.legend, id.Name+" = THE object of the field environment (from "+exprString(c.Fun)+"())")
+				return ".skip"
+			}
+		}
+	}
+	// `recv = fresh()`: the receiver variable is re-pointed to a fresh zeroed object
+	if len(t.Lhs) == 1 && len(t.Rhs) == 1 && t.Tok == token.ASSIGN {
+		if id, ok := t.Lhs[0].(*ast.Ident); ok && id.Name == x.recvVar && x.recvVar != "" {
+			if _, shadow := x.lookup(id.Name); !shadow {
+				c, isCall := t.Rhs[0].(*ast.CallExpr)
+				var sh shim
+				found := false
+				if isCall && len(c.Args) == 0 {
+					if fid, ok := c.Fun.(*ast.Ident); ok {
+						sh, found = x.fn.calls[fid.Name]
+					}
+				}
+				if !found || sh.kind != "fresh" || x.fn.recvNil == "" {
+					x.fail(t, "assignment to the receiver variable is only supported as recv = <fresh object>() with a nil-able receiver")
+				}
+				lvs := []string{"(.fld " + leanStr(x.fn.recvNil) + ")"}
+				vals := []string{"(.lit (.bool false))"}
+				for _, fl := range sh.flds {
+					fs, ok := x.fn.fields[fl]
+					if !ok {
+						x.fail(t, "shim fresh names the unmapped field %s", fl)
+					}
+					z, ok := zeroOf(fs.typ)
+					if !ok {
+						x.fail(t, "shim fresh: no zero value for field %s of type %s", fl, fs.typ)
+					}
+					lvs = append(lvs, "(.fld "+leanStr(fs.lean)+")")
+					vals = append(vals, "(.lit ("+z+"))")
+				}
+				return "(.assign [" + strings.Join(lvs, ", ") + "] [" + strings.Join(vals, ", ") + "])"
+			}
+		}
 	}
 	// a single call on the right with a statement-level meaning
 	if len(t.Rhs) == 1 {
@@ -1416,12 +1885,50 @@ func (x *xl) decl(t *ast.DeclStmt) string {
 	return ""
 }
 
+// ret translates `return …`.  With deferred calls pending (see deferStmt) the results are evaluated first, then the
+// deferred calls run, last registered first, then the function returns — Go's order.
 func (x *xl) ret(t *ast.ReturnStmt) string {
+	pre, vals := x.retParts(t)
+	if len(x.defers) == 0 {
+		return block(append(pre, "(.ret ["+strings.Join(vals, ", ")+"])"))
+	}
+	// results → fresh locals (unless they already are plain locals), deferred calls, return
+	var tmps []string
+	var lvs []string
+	for i, v := range vals {
+		typ := "?"
+		if i < len(x.results) {
+			typ = x.results[i]
+		}
+		tmp := fmt.Sprintf("l%d", x.nloc)
+		x.nloc++
+		x.legend = append(x.legend, tmp+" = (result "+strconv.Itoa(i)+" held while the deferred calls run) "+typ)
+		lvs = append(lvs, "(.loc "+leanStr(tmp)+")")
+		tmps = append(tmps, "(.loc "+leanStr(tmp)+")")
+		_ = v
+	}
+	out := append([]string{}, pre...)
+	if len(vals) > 0 {
+		out = append(out, "(.assign ["+strings.Join(lvs, ", ")+"] ["+strings.Join(vals, ", ")+"])")
+	}
+	for k := len(x.defers) - 1; k >= 0; k-- {
+		out = append(out, x.defers[k])
+	}
+	out = append(out, "(.ret ["+strings.Join(tmps, ", ")+"])")
+	return block(out)
+}
+
+// retParts: statements to run first, and the result expressions
+func (x *xl) retParts(t *ast.ReturnStmt) ([]string, []string) {
 	if len(x.inouts) > 0 {
 		if len(x.results) != 0 {
 			x.fail(t, "in-out parameters are supported for functions without declared results only")
 		}
-		return "(.ret [" + x.inoutVals() + "])"
+		var rs []string
+		for _, v := range x.inouts {
+			rs = append(rs, "(.loc "+leanStr(v.lean)+")")
+		}
+		return nil, rs
 	}
 	if len(t.Results) == 0 {
 		var rs []string
@@ -1431,38 +1938,68 @@ func (x *xl) ret(t *ast.ReturnStmt) string {
 		if len(x.results) != len(x.named) {
 			x.fail(t, "bare return in a function with unnamed results")
 		}
-		return "(.ret [" + strings.Join(rs, ", ") + "])"
+		return nil, rs
 	}
-	if len(t.Results) == 1 && len(x.results) > 1 {
-		x.fail(t, "return f() forwarding several results is outside the subset")
-	}
-	if len(t.Results) != len(x.results) {
-		x.fail(t, "return arity")
-	}
-	// `return f(...)` with a statement-level call
+	// `return f(...)` with a statement-level call, possibly forwarding several results
 	if len(t.Results) == 1 {
 		if c, ok := t.Results[0].(*ast.CallExpr); ok {
 			r, isStmt := x.callExpr(c)
 			if isStmt {
 				pc := pendingCall
 				pendingCall = nil
-				if pc.ctor == "mut" || len(pc.res) != 1 || pc.res[0] != x.results[0] {
+				if pc.ctor == "mut" || pc.ctor == "nop" || len(pc.res) != len(x.results) {
 					x.fail(t, "return of call %s", exprString(c.Fun))
 				}
-				tmp := tvar{fmt.Sprintf("l%d", x.nloc), pc.res[0]}
-				x.nloc++
-				x.legend = append(x.legend, tmp.lean+" = (value of the returned call) "+tmp.typ)
-				call := x.emitCall(t, pc, []string{"(.loc " + leanStr(tmp.lean) + ")"}, []string{tmp.typ})
-				return block([]string{call, "(.ret [(.loc " + leanStr(tmp.lean) + ")])"})
+				var lvs, typs, rs []string
+				for i, rt := range pc.res {
+					if rt != x.results[i] {
+						x.fail(t, "result %d of %s has type %s, the function returns %s", i, exprString(c.Fun), rt, x.results[i])
+					}
+					tmp := tvar{fmt.Sprintf("l%d", x.nloc), rt}
+					x.nloc++
+					x.legend = append(x.legend, tmp.lean+" = (value of the returned call) "+tmp.typ)
+					lvs, typs, rs = append(lvs, "(.loc "+leanStr(tmp.lean)+")"), append(typs, rt), append(rs, "(.loc "+leanStr(tmp.lean)+")")
+				}
+				return []string{x.emitCall(t, pc, lvs, typs)}, rs
 			}
-			return "(.ret [" + x.coerce(t, r, x.results[0]).lean + "])"
+			if len(x.results) != 1 {
+				x.fail(t, "return arity")
+			}
+			return nil, []string{x.coerce(t, r, x.results[0]).lean}
 		}
+	}
+	if len(t.Results) != len(x.results) {
+		x.fail(t, "return arity")
 	}
 	var rs []string
 	for i, r := range t.Results {
 		rs = append(rs, x.coerce(r, x.expr(r), x.results[i]).lean)
 	}
-	return "(.ret [" + strings.Join(rs, ", ") + "])"
+	return nil, rs
+}
+
+// deferStmt: `defer recv.M()` — only at the top level of the function body (so it is registered unconditionally and
+// once), only a call WITHOUT arguments whose shim is a recorded external intrinsic.  The call is executed by every
+// later `return` (and at the end of a body without results), after the results have been evaluated.  A panic would
+// also run it; GoMini's panic outcome carries no state, and the theorems show there is no panic.
+func (x *xl) deferStmt(t *ast.DeferStmt) string {
+	if x.depth != 1 {
+		x.fail(t, "defer below the top level of the function body is outside the subset")
+	}
+	if len(t.Call.Args) != 0 {
+		x.fail(t, "defer of a call with arguments is outside the subset")
+	}
+	_, isStmt := x.callExpr(t.Call)
+	if !isStmt {
+		x.fail(t, "deferred call %s must be a recorded intrinsic", exprString(t.Call.Fun))
+	}
+	pc := pendingCall
+	pendingCall = nil
+	if pc.ctor != "callX" || len(pc.pre) != 0 {
+		x.fail(t, "deferred call %s must be a recorded external intrinsic", exprString(t.Call.Fun))
+	}
+	x.defers = append(x.defers, x.emitCall(t, pc, nil, nil))
+	return ".skip"
 }
 
 func (x *xl) switchStmt(t *ast.SwitchStmt) string {
@@ -1556,6 +2093,64 @@ func (x *xl) rangeStmt(t *ast.RangeStmt) string {
 	v := bind(t.Value, el)
 	body := x.scoped(t.Body)
 	return x.namedLoop("(.range " + k + " " + v + " " + xs.lean + "\n  " + indent(body, 2) + ")")
+}
+
+// cutBody translates the top-level statements before the cut and ends with the tail intrinsic.
+func (x *xl) cutBody(fd *ast.FuncDecl) string {
+	tl := x.fn.tail
+	x.push()
+	defer x.pop()
+	var out []string
+	found := false
+	for _, st := range fd.Body.List {
+		if strings.Join(strings.Fields(transNodeText(st)), " ") == strings.Join(strings.Fields(tl.from), " ") {
+			found = true
+			break
+		}
+		out = append(out, x.stmt(st))
+	}
+	if !found {
+		x.fail(fd, "the statement %q that starts the untranslated tail was not found at top level", tl.from)
+	}
+	var args []string
+	for _, a := range tl.args {
+		v, ok := x.lookup(a)
+		if !ok {
+			x.fail(fd, "tail argument %s is not a local", a)
+		}
+		args = append(args, "(.loc "+leanStr(v.lean)+")")
+	}
+	x.legend = append(x.legend, "CUT: everything from `"+tl.from+"` on is the recorded intrinsic "+tl.f)
+	if tl.trace != "" {
+		fs, ok := x.fn.fields[tl.trace]
+		if !ok {
+			x.fail(fd, "tail names the unmapped trace field %s", tl.trace)
+		}
+		rec := append([]string{"(.lit (.bytes " + leanBytes([]byte(tl.f)) + ") /- " + tl.f + " -/)"}, args...)
+		out = append(out, "(.assign [(.fld "+leanStr(fs.lean)+")] [(.call \"append\" [(.fld "+leanStr(fs.lean)+"), (.call \"tuple\" ["+strings.Join(rec, ", ")+"])])])")
+	}
+	if tl.res == "" {
+		if len(x.results) != 0 {
+			x.fail(fd, "tail without result in a function with results")
+		}
+		out = append(out, "(.callX [] "+leanStr(tl.f)+" ["+strings.Join(args, ", ")+"])", "(.ret [])")
+		return block(out)
+	}
+	if len(x.results) != 1 || x.results[0] != tl.res {
+		x.fail(fd, "tail result type %s does not match the function's results", tl.res)
+	}
+	tmp := fmt.Sprintf("l%d", x.nloc)
+	x.nloc++
+	x.legend = append(x.legend, tmp+" = (result of the tail intrinsic) "+tl.res)
+	out = append(out, "(.callX [(.loc "+leanStr(tmp)+")] "+leanStr(tl.f)+" ["+strings.Join(args, ", ")+"])", "(.ret [(.loc "+leanStr(tmp)+")])")
+	return block(out)
+}
+
+// nodeText renders a statement with go/printer (whitespace is normalised by the caller)
+func transNodeText(n ast.Node) string {
+	var sb strings.Builder
+	_ = printer.Fprint(&sb, token.NewFileSet(), n)
+	return sb.String()
 }
 
 func (x *xl) inoutVals() string {
@@ -1657,9 +2252,20 @@ func (x *xl) function() (lean string, err error) {
 		x.inouts = append(x.inouts, v)
 		x.legend = append(x.legend, v.lean+" is in-out: its final value is returned")
 	}
-	body := x.scoped(fd.Body)
+	var body string
+	if x.fn.tail == nil {
+		body = x.scoped(fd.Body)
+	} else {
+		body = x.cutBody(fd)
+	}
 	if len(x.inouts) > 0 {
 		body = block([]string{body, "(.ret [" + x.inoutVals() + "])"})
+	} else if len(x.defers) > 0 && len(x.results) == 0 {
+		end := []string{body}
+		for k := len(x.defers) - 1; k >= 0; k-- {
+			end = append(end, x.defers[k])
+		}
+		body = block(end)
 	}
 	var sb strings.Builder
 	recv := ""
@@ -1742,7 +2348,7 @@ func translate(spec transSpec) func() (string, int, error) {
 			if fd == nil {
 				return "", 0, fmt.Errorf("func (%s) %s not found in %s", fn.recv, fn.name, fn.file)
 			}
-			x := &xl{fn: fn, fd: fd, consts: map[string]constant.Value{}}
+			x := &xl{fn: fn, fd: fd, file: f, consts: map[string]constant.Value{}}
 			pendingCall = nil
 			lean, err := x.function()
 			if err != nil {
